@@ -76,6 +76,48 @@ def run(ctx, replay=None):
                     ctx.count('integer_coordinate_runs', True)
                 except Exception as e:
                     ctx.count('integer_coords_rejected', type(e).__name__)
+            # the instance first used in 'estimate' mode (binned semivariances), then switched back to 'exact'
+            try:
+                okm, _ = kc.make_ok(s, V=V)
+                okm.mode = 'estimate'
+                okm.precision = 20
+                try:
+                    _ = okm.transform(*[T[:, d] for d in range(dim)])
+                except Exception as e:
+                    ctx.count('estimate_mode_raised', type(e).__name__)          # the approximate mode itself is not the subject here
+                okm.mode = 'exact'
+                zm = np.asarray(okm.transform(*[T[:, d] for d in range(dim)]), float)
+                same('result of exact mode depends on an earlier use of the instance in estimate mode', zm, np.asarray(okm.sigma, float), sig={'what': 'mode-history'})
+                runs += 1
+            except Exception as e:
+                ctx.count('mode_history_rejected', type(e).__name__ + ':' + str(e)[:30])
+            # targets as a MetricSpace built from a buffer the caller re-uses between two calls
+            try:
+                okb, _ = kc.make_ok(s, V=V)
+                buf = T.copy()
+                msb = kc.target_space(s, buf, okb.range if okb.sparse else None)
+                msb_src = msb.coords
+                zb1 = np.asarray(okb.transform(msb), float)
+                sb1 = np.asarray(okb.sigma, float).copy()
+                # (the harness hands its own array to target_space, which copies it; the space must not follow later writes to what it was given)
+                if np.shares_memory(msb_src, buf):
+                    ctx.problem('oracle', 'a target MetricSpace shares memory with the array it was built from', s, None, {'what': 'target-space-aliases-caller'})
+                same('result depends on the targets being given as a MetricSpace (first call)', zb1, sb1, sig={'what': 'target-space'})
+                runs += 1
+            except Exception as e:
+                ctx.count('target_space_rejected', type(e).__name__ + ':' + str(e)[:30])
+            # targets as one (n, ndim) array, in particular with exactly ndim targets (a square array)
+            try:
+                oks, _ = kc.make_ok(s, V=V)
+                for nt in sorted({dim, 1, min(len(T), dim + 1)}):
+                    if nt > len(T):
+                        continue
+                    zs1 = np.asarray(oks.transform(T[:nt].copy()), float)
+                    ss1 = np.asarray(oks.sigma, float).copy()
+                    same('result depends on the targets being given as one (n, ndim) array (n = %d)' % nt, zs1, ss1, idx=np.arange(nt), sig={'what': 'single-array-targets', 'n_equals_ndim': nt == dim})
+                    runs += 1
+            except Exception as e:
+                ctx.count('single_array_rejected', type(e).__name__ + ':' + str(e)[:30])
             # batches, permutations, repeated calls on ONE instance
             ok, _ = kc.make_ok(s, V=V)
             k = rng.randint(1, len(T) - 1)
